@@ -397,6 +397,7 @@ func runC18(e *Engine, r *Report) {
 	ruleRemovedLeaderStepsDown(e, r)
 	ruleConfirmFromAllVoters(e, r)
 	ruleHeartbeatRespProducer(e, r)
+	ruleTransferTarget(e, r)
 	borrow(e, r, "C20", "TBL-import-validators")
 	borrow(e, r, "C03", "GD-campaign")
 }
